@@ -1,6 +1,6 @@
 // E2 harness for C01 / C02: generated task programs on the live runtime, exact event log.
 // usage: e2_sched <seed> <perturb_per_1024> <prog> <size> [pika options...]
-//   prog: fanout | pingpong | mixed | zoo | meet     extra option: --verif:nosteal
+//   prog: fanout | pingpong | mixed | zoo | meet | stale     extra option: --verif:nosteal
 // Prints: log lines, then `monitor <text>` lines (observable violations), then `end ok|hang`.
 #include "../e2_log.hpp"
 
@@ -774,6 +774,63 @@ int main(int argc, char** argv)
                     if (rr.below(2)) ex::execute(s, [=] { zoo_root(id, rs, rounds); });
                     else ex::start_detached(ex::schedule(s) | ex::then([=] { zoo_root(id, rs, rounds); }));
                 }
+            });
+            continue;
+        }
+        if (prog == "stale")
+        {
+            // directed: interruption requests aimed at threads whose function has already finished (terminated, handle still
+            // joinable) must die with those incarnations; afterwards batches of unrelated yielding threads of the same stack
+            // class are created so that the victims' thread objects come round through the recycling heap.  Every one of them
+            // must run to completion (a stale request would be delivered at the first yield: noexcept -> std::terminate)
+            ext.emplace_back([=] {
+                rng rr{es};
+                long id = new_task_id();
+                std::uint64_t cs = rr.next();
+                int const victims = 6 + size;
+                ex::start_detached(ex::schedule(ex::thread_pool_scheduler{}) | ex::then([=] {
+                    rng r2{cs};
+                    body_guard g(id);
+                    for (int v = 0; v < victims; ++v)
+                    {
+                        long cid = new_task_id();
+                        std::uint64_t ls = r2.next();
+                        auto stage = std::make_shared<std::atomic<int>>(1);
+                        auto gone = std::make_shared<pika::counting_semaphore<>>(0);
+                        pika::thread t([=] { zoo_leaf(cid, ls, false, nullptr); });
+                        {
+                            std::lock_guard<std::mutex> l(g_flag_mtx);
+                            watch w{t.native_handle(), stage, 1, gone, -1};
+                            w.terminated = true;
+                            g_watches.push_back(w);
+                        }
+                        g.pause();
+                        gone->acquire();
+                        t.interrupt();
+                        t.join();
+                        g.resume_();
+                    }
+                    for (int batch = 0; batch < 4; ++batch)
+                    {
+                        int m = 16 + int(r2.below(9));
+                        std::vector<pika::thread> later;
+                        for (int i = 0; i < m; ++i)
+                        {
+                            long cid = new_task_id();
+                            std::uint64_t ls = r2.next() | 1;
+                            later.emplace_back([=] {
+                                body_guard cg(cid);
+                                cg.pause();
+                                pika::this_thread::yield();
+                                cg.resume_();
+                                (void) ls;
+                            });
+                        }
+                        g.pause();
+                        for (auto& t : later) t.join();
+                        g.resume_();
+                    }
+                }));
             });
             continue;
         }
